@@ -214,7 +214,7 @@ def market_book():
                                 version=1, runners=[runner(s) for s in SELS], publishTime=1650391200000, streaming_unique_id=1, streaming_update={}, streaming_snap=False)
 
 
-def build(exchange, name="strat"):
+def build(exchange, name="strat", transaction_limit=5000):
     bc = mock.Mock()
     bc.lightweight = False
     bc.username = "demo"
@@ -222,7 +222,7 @@ def build(exchange, name="strat"):
     bc.betting.cancel_orders.side_effect = exchange.cancel_orders
     bc.betting.update_orders.side_effect = exchange.update_orders
     bc.betting.replace_orders.side_effect = exchange.replace_orders
-    client = clients.BetfairClient(bc)
+    client = clients.BetfairClient(bc, transaction_limit=transaction_limit)  # None = unlimited: still counted (C18)
     fw = Flumine(client=client)
     st = BaseStrategy(market_filter={"marketIds": [MARKET_ID]}, name=name, max_order_exposure=1e6, max_selection_exposure=1e6, max_live_trade_count=10000, max_trade_count=100000)
     fw.add_strategy(st)
@@ -266,11 +266,16 @@ def main():
     op.time.sleep = lambda s: None  # retry back-off
     for it in range(a.n):
         ex = Exchange(rnd)
-        fw, client, st = build(ex)
+        fw, client, st = build(ex, transaction_limit=rnd.choice([5000, 5000, None]))
         execution = fw.betfair_execution
         execution._thread_pool.shutdown(wait=False)
         execution._thread_pool = Inline()
-        control = [c for c in client.trading_controls if c.NAME == "MAX_TRANSACTION_COUNT"][0]
+        controls_ = [c for c in client.trading_controls if c.NAME == "MAX_TRANSACTION_COUNT"]
+        if not controls_:
+            for k in ("C18", "C12"):
+                fail(k, "no transaction-count control is registered for the client (transaction_limit=%s): its transactions are not counted at all" % client.transaction_limit)
+            break
+        control = controls_[0]
         market = fw._add_market(MARKET_ID, market_book())
         placed = []
 
